@@ -98,7 +98,55 @@ def ks1(p, res, prefixes):
                     continue  # loop variable outside 0..dsize: not a state of the loop
                 if (S != D or O + Lm != D - 1) and bad is None:
                     bad = {"dsize": D, "step": S, "offset": O, "limb_offset": Lm}
-        if bad:
+        # the un-grouped form: one product of all limbs at limb offset 0, outside the digit loop, is the whole gadget product only for dsize == 1
+        flat = [(bi, t) for bi, t in f.calls() if (f.callee_def(t) or {}).get("n") == "vmp_apply_dft_to_dft" and g.innermost_loop(bi) is None and len(t["a"]) >= 5]
+        dsz_free = None
+        if flat and paths:
+            # dsize as an expression outside the loop: the range bound of the digit loop evaluated on a path through it
+            for path in paths:
+                pos = set(path)
+                if any(b in pos for b, _ in sel):
+                    sy = Sym(f, sc.PathFlow(f, path))
+                    for L in g.loops():
+                        if any(b in L["body"] for b, _ in sel) and any(b in L["body"] for b, _ in vm):
+                            from .c11 import _range_bounds
+                            for b2 in sorted(L["body"]):
+                                t2 = f.blocks[b2]["t"]
+                                if t2 and t2["k"] == "Call" and (f.callee_def(t2) or {}).get("n") == "next" and g.innermost_loop(b2) is L:
+                                    rb = _range_bounds(f, Flow(f), sy, t2)
+                                    if rb is not None:
+                                        dsz_free = rb[1]
+                    if dsz_free is not None:
+                        break
+        if flat and dsz_free is not None:
+            seen2 = set()
+            for path in paths:
+                pos = set(path)
+                if not any(b in pos for b, _ in flat) or any(b in pos for b, _ in sel):
+                    continue
+                sy = Sym(f, sc.PathFlow(f, path))
+                cmps = [c for c in (sc.norm_cond(k, t) for k, t in sc.path_conditions(f, g, path, sy)) if c[0] == "cmp"]
+                sig = tuple(sorted(repr(c) for c in cmps))
+                if sig in seen2:
+                    continue
+                seen2.add(sig)
+                checked += 1
+                for val in pwl.valuations(count=1500, hi=7):
+                    ev = pwl.Eval(p, val)
+                    ev.syms[f.uid] = sy
+                    try:
+                        if not all({"Eq": x == y, "Ne": x != y, "Lt": x < y, "Le": x <= y, "Gt": x > y, "Ge": x >= y}[c[1]] for c in cmps for x, y in [(ev.key(c[2]), ev.key(c[3]))]):
+                            continue
+                        D = ev.poly(dsz_free)
+                    except (pwl.ErrPath, ZeroDivisionError):
+                        continue
+                    if D > 1 and bad is None:
+                        bad = {"dsize": D, "step": 1, "offset": 0, "limb_offset": 0, "ungrouped": True}
+        if bad and bad.get("ungrouped"):
+            res.bad("KS-1", f.pretty, "ungrouped-product",
+                    "%s: a path with dsize = %d takes the single product of all limbs at limb offset 0 (the dsize == 1 form) instead of the digit loop: the digits are not "
+                    "recombined (a one-limb operand is multiplied %d limb(s) too low)" % (f.pretty, bad["dsize"], bad["dsize"] - 1), site=f.where(), detail=bad)
+        elif bad:
             res.bad("KS-1", f.pretty, "digit-selection",
                     "%s: digit loop with dsize = %d selects the operand limbs with step %d / offset %d and accumulates the product at limb offset %d; the digits recombine only when "
                     "step == dsize and offset + limb_offset == dsize - 1" % (f.pretty, bad["dsize"], bad["step"], bad["offset"], bad["limb_offset"]), site=f.where(), detail=bad)
@@ -144,6 +192,44 @@ def cmux1(p, res):
     return n
 
 
+def sign4(p, res):
+    """products / sums of Galois elements are reduced in Z/2NZ: a `%` whose dividend is built from the stored Galois element of a key (`p()`) or a parameter named `p` and
+    whose result is stored as a Galois element (`set_p`) divides by `cyclotomic_order()` (or 2 * n()), never by the ring degree"""
+    from .c01 import pwl_atoms
+    n = 0
+    for f in sorted(p.lib_fns(), key=lambda x: x.uid):
+        if f.kind == "Closure" or not f.blocks or not f.uid.startswith(("poulpy_core", "poulpy_bin_fhe", "poulpy_ckks")) or "::test_suite::" in f.uid:
+            continue
+        sets = [(bi, t) for bi, t in f.calls() if (f.callee_def(t) or {}).get("n") == "set_p" and len(t["a"]) == 2]
+        if not sets:
+            continue
+        flow = Flow(f)
+        sym = None
+        for bi, t in sets:
+            for r in flow.op_roots(t["a"][1]):
+                if r[0] != "bin":
+                    continue
+                st = f.blocks[r[1]]["s"][r[2]][2]
+                if st.get("op") != "Rem":
+                    continue
+                if sym is None:
+                    sym = Sym(f, flow)
+                n += 1
+                div = sym.operand(st["o"][1])
+                names = {a[1] for a in pwl_atoms(div) if a[0] == "f"}
+                for a in pwl_atoms(div):
+                    if a[0] == "call" and a[1] == f.uid:
+                        names.add((f.callee_def(f.blocks[a[2]]["t"]) or {}).get("n"))
+                two_n = any(c == 2 and any(a[0] == "f" and a[1] == "n" for a in mono) for mono, c in div.t.items())
+                if "cyclotomic_order" in names or two_n:
+                    res.ok("SIGN-4", {"fn": f.pretty, "modulus": repr(div)})
+                else:
+                    res.bad("SIGN-4", f.pretty, "galois-element-modulus",
+                            "%s stores a Galois element reduced modulo `%r`: Galois elements live in (Z/2NZ)*, a product reduced modulo the ring degree names another automorphism "
+                            "(p and p + N differ by the sign of odd powers)" % (f.pretty, div), site=f.where(t["l"]))
+    return n
+
+
 def run(res, tier):
     res.level = "other"
     res.explanation = ("Only structural clauses of C03 are decided: the digit loop of the gadget product of the key-switching family selects the operand limbs with step == dsize and an offset "
@@ -153,6 +239,7 @@ def run(res, tier):
     res.rule("KS-1", "digit loops: step == dsize and offset + limb_offset == dsize - 1 on every path")
     res.rule("SIGN-3", "the Galois-element helpers use the ring degree only as 2 * n() / cyclotomic_order()")
     res.rule("WR-4", "raw-slice vmp kernels taking limb_offset: the zero fill starts one stride after the last written limb")
+    res.rule("SIGN-4", "a Galois element computed with `%` and stored with set_p is reduced modulo cyclotomic_order() / 2 * n()")
     res.rule("RAD-1", "a cross-radix conversion skipped / taken on a radix comparison is guarded by the comparison of exactly its input and output radices")
     res.rule("RAD-2", "no call of an operation asserting equal radices of two arguments sits on a branch whose guards imply that they differ")
     res.assumptions = ["vec_znx_dft_copy / vec_znx_dft_apply select limbs offset, offset + step, ...; vmp accumulates at limb_offset (C07)", "zeroed accumulators of multi-digit products: SC-3 under C12"]
@@ -168,6 +255,8 @@ def run(res, tier):
         from .c11 import wr4
         n4 = wr4(p, res)
         res.floor("WR-4", "limb_offset kernels", n4, 2)
+        ns4 = sign4(p, res)
+        res.floor("SIGN-4", "stored Galois-element reductions", ns4, 2)
         from . import rad
         nr1 = rad.rad1(p, res, RAD_PREFIXES)
         res.floor("RAD-1", "guarded radix conversions of the key-switching family", nr1, 14)
